@@ -6,11 +6,14 @@
 //
 // mc.BFS over write histories (tx Put/Put-empty/Delete/Commit/Reset, blk Put/Put-empty/Delete/CommitTo+BatchCommit/
 // Reset) from EVERY subset of the raw keys pre-loaded in the store, dedup on (store, blk, tx) model contents.
+// A BFS node is compact (pre-load id, one byte per event, 16-byte hash of the model contents); model and real objects
+// are re-derived from it. Bounds: thorough <= 8 workers / 8 GiB (memory watchdog -> Capped), frontier cap.
 // After every transition the real objects are asked everything (read battery): Get at all three layers for every
 // key, prefix scans at the tx layer (CacheDB.NewIterator) and at the block layer (OverlayDB.NewIterator) for every
 // prefix of the alphabet, a full scan of the store. Successor = replay of the whole op path on a fresh OverlayDB /
-// CacheDB over a wiped+reloaded pooled store; in addition every NEW state is re-derived from scratch (fresh
-// NewMemLevelDBStore, production NewOverlayDB/NewCacheDB) and the battery repeated (cross-check of the pooling).
+// CacheDB over a pooled store whose visible content is re-read and repaired to exactly the pre-load before each use;
+// in addition every state up to a stated depth is re-derived from scratch (fresh NewMemLevelDBStore, production
+// NewOverlayDB/NewCacheDB) and the battery repeated (cross-check of pooling and small arenas).
 //
 // Oracle (the property): read = newest layer's value, deleted (Delete or empty value — the code base's delete
 // convention, see memdb.go header) reads absent; a prefix scan yields exactly the visible live keys under the prefix,
@@ -490,7 +493,10 @@ func explore(tag string, ck []string, depth, scratchMaxDepth int, fullMenu bool,
 	var events []string
 	var evOps []op
 	evIdx := map[string]int{}
-	add := func(o op) { evIdx[o.String()] = len(events); events = append(events, o.String()); evOps = append(evOps, o) }
+	add := func(o op) {
+		evIdx[o.String()], opTab[o.String()] = len(events), o
+		events, evOps = append(events, o.String()), append(evOps, o)
+	}
 	for _, k := range ckeys {
 		add(op{"tx", "put", k, "x"})
 		add(op{"tx", "put", k, "yy"})
@@ -661,6 +667,15 @@ func explore(tag string, ck []string, depth, scratchMaxDepth int, fullMenu bool,
 		r.Capped(fmt.Sprintf("%s: a level exceeded %d states and was not expanded", tag, maxFrontier))
 	}
 	es.transitions, es.scratchChecked, es.scratchSkipped = transitions.Load(), scratchChecked.Load(), scratchSkipped.Load()
+	// release the pooled stores (4 MiB write buffer each) before the next exploration
+	poolMu.Lock()
+	for k, l := range pools {
+		for _, h := range l {
+			_ = h.s.Close()
+		}
+		delete(pools, k)
+	}
+	poolMu.Unlock()
 	return es
 }
 
